@@ -23,7 +23,7 @@ from ..core import Ctx, key_of
 from ..dep import data, full
 from ..model import AnchorMissing, dotted, norm, own_nodes
 from ..order import affine, local_resolver, order_table
-from .common import ctl_only, pattr_writes, returns
+from .common import branch_of, ctl_only, pattr_writes, returns
 
 META = {
     "level": "other",
@@ -89,9 +89,9 @@ def milestone_bound_rule(ctx: Ctx, rid: str):
     for pid in ("start", "end"):
         for atoms, node, sc, tgt in pattr_writes(ctx, slot, pid):
             encl = enclosing_ifs(node.ast, slot.node)
-            in_ms = any(norm(i.test) == "is_milestone" and b == "T" for (i, b) in encl)
-            fwd = any(norm(i.test) == "forward" and b == "T" for (i, b) in encl)
-            unpinned = any(norm(i.test) == "start_date" and b == "F" for (i, b) in encl)
+            in_ms = branch_of(slot, node.ast, "is_milestone") == "T"
+            fwd = branch_of(slot, node.ast, "forward") == "T"
+            unpinned = branch_of(slot, node.ast, "start_date") == "F"
             if not (in_ms and fwd and unpinned):
                 continue
             n += 1
@@ -109,9 +109,9 @@ def milestone_bound_rule(ctx: Ctx, rid: str):
     for pid in ("start", "end"):
         for atoms, node, sc, tgt in pattr_writes(ctx, slot, pid):
             encl = enclosing_ifs(node.ast, slot.node)
-            in_ms = any(norm(i.test) == "is_milestone" and b == "T" for (i, b) in encl)
-            bwd = any(norm(i.test) == "forward" and b == "F" for (i, b) in encl)
-            unpinned = any(norm(i.test) == "end_date" and b == "F" for (i, b) in encl)
+            in_ms = branch_of(slot, node.ast, "is_milestone") == "T"
+            bwd = branch_of(slot, node.ast, "forward") == "F"
+            unpinned = branch_of(slot, node.ast, "end_date") == "F"
             if not (in_ms and bwd and unpinned):
                 continue
             nb += 1
@@ -142,7 +142,7 @@ def precise_end_rules(ctx: Ctx, rid: str):
         # every slot-based assignment of the returned date, in the forward and in the backward branch
         per_branch = {"T": [], "F": []}
         for asg in [n_ for n_ in own_nodes(prec) if isinstance(n_, ast.Assign) and norm(n_.targets[0]) == norm(first)]:
-            br = next((b for (i, b) in enclosing_ifs(asg, prec.node) if norm(i.test) == "forward"), None)
+            br = branch_of(prec, asg, "forward")
             if br is None or "call:idxToDate" not in data(fd.deps_of(asg.value)):
                 continue
             per_branch[br].append(asg)
@@ -420,12 +420,8 @@ def run(ctx: Ctx):
 
     def branch_of_forward(node_ast):
         """'F' if the statement sits in the else-branch of `if forward:` (backward mode)."""
-        child, p = node_ast, getattr(node_ast, "_parent", None)
-        while p is not None and p is not ts_sched.node:
-            if isinstance(p, ast.If) and norm(p.test) == "forward":
-                return "T" if child in p.body else "F"
-            child, p = p, getattr(p, "_parent", None)
-        return None
+        from .common import branch_of
+        return branch_of(ts_sched, node_ast, "forward")
 
     seen = {"start": 0, "end": 0}
     for pid, want in (("end", 1), ("start", 0)):
